@@ -396,11 +396,19 @@ func schedCase(k *engine.Case) {
 		}
 		Q.Wait()
 		for _, a := range holders() {
+			poisoned := false
 			func() {
-				defer func() { recover() }()
+				defer func() {
+					if recover() != nil {
+						poisoned = true
+					}
+				}()
 				released[a.id] = true
 				doRelease(a)
 			}()
+			if poisoned {
+				return
+			}
 		}
 		Q.Wait()
 	}
